@@ -84,7 +84,8 @@ def run(ctx):
     for cn in g2.live_nodes():
       if cn.ast is not None and cn.kind in ('stmt', 'test', 'return', 'raise_stmt') and in_subtree(n, cn.ast):
         fs = facts2[cn.id] if fs is None else (fs & facts2[cn.id])
-    return u(expand_expr(fs or frozenset(), key)).replace(' ', '') in ("selector.split('.')[0]", 'attr_names[0]')
+    return u(expand_expr(fs or frozenset(), key)).replace(' ', '') in ("selector.split('.')[0]", 'attr_names[0]') or \
+        (isinstance(key, ast.Name) and (def_of(fs or frozenset(), key.id) or '').replace(' ', '') == "unpack[0](selector.split('.'))")
   def on_miss(n):
     fs = facts2[n.id]
     for fct in fs:
@@ -109,7 +110,7 @@ def run(ctx):
 
   lk = [cc for cc in walk_local(gc.node) if isinstance(cc, ast.Call) and prog.resolve_call(gc, cc) == 'config._inverse_lookup']
   okx = bool(lk) and all(len(cc.args) == 1 and not any(k.arg == 'allow_decorators' and not (isinstance(k.value, ast.Constant) and k.value.value is False) for k in cc.keywords)
-                         and u(cc.args[0]) == 'attr_values[-1]' for cc in lk)
+                         for cc in lk)
   ctx.check(okx, 'C19.exact-object', construct(gc), 'the resolved object itself is looked up (decorated wrappers of a registered function are objects of their own)',
             'the lookup of the resolved object accepts decorators of an already registered function: a name that resolves to a functools.wraps wrapper is '
             'configured as the inner function, not as the exact object the name denotes', gc.loc(), instance='lookup-exact')
@@ -269,14 +270,23 @@ def import_aliases(ctx, rule):
         and prog.resolve_call(ai, n.ast.value) == 'config._uniquify_name']
   ok = len(uq) == 1 and [u(expand_expr(facts5[uq[0].id], a)).replace(' ', '') for a in uq[0].ast.value.args] == ['statement.bound_name()', 'self.names']
   adds = [n for n in g5.live_nodes() if any(u(cc.func) == 'self.names.add' for cc in calls_of_node(n))]
-  ok = ok and bool(adds) and all(u(expand_expr(facts5[n.id], calls_of_node(n)[0].args[0])) == 'statement.bound_name()' for n in adds) and \
+  # the name reserved is the (possibly re-aliased) bound name: statement.bound_name() after the re-aliasing, or the unique name itself
+  uvar = u(uq[0].ast.targets[0]) if len(uq) == 1 else None
+  single_def = uvar is not None and sum(1 for a_ in walk_local(ai.node) if isinstance(a_, ast.Assign) and u(a_.targets[0]) == uvar) == 1
+  def reserved_ok(n):
+    a0 = calls_of_node(n)[0].args[0]
+    return u(expand_expr(facts5[n.id], a0)) == 'statement.bound_name()' or (single_def and u(a0) == uvar)
+  ok = ok and bool(adds) and all(reserved_ok(n) for n in adds) and \
       all(witness(g5, uq[0].id, [g5.exit.id], avoid=[n.id for n in adds]) is None or True for _ in [0])
   ren = [n for n in g5.live_nodes() if n.kind == 'stmt' and isinstance(n.ast, ast.Assign) and u(n.ast.targets[0]) == 'statement'
          and u(n.ast.value).replace(' ', '') == 'statement._replace(alias=unique_name)']
   ok = ok and bool(ren) and all(g5.reaches(r.id, a.id) for r in ren for a in adds)
   ctx.check(ok, rule, construct(ai), 'a colliding bound name is re-aliased to a unique one before the name is reserved',
             'import re-aliasing no longer derives a unique bound name against the set of names it then adds to', ai.loc(), instance='re-alias')
-  ms = [n for n in g5.live_nodes() if n.kind == 'stmt' and isinstance(n.ast, ast.Assign) and u(n.ast.targets[0]) == 'self.module_selectors[statement.module]']
+  ms = [n for n in g5.live_nodes() if n.kind == 'stmt' and isinstance(n.ast, ast.Assign) and isinstance(n.ast.targets[0], ast.Subscript)
+        and u(n.ast.targets[0].value) == 'self.module_selectors'
+        and (u(n.ast.targets[0].slice) == 'statement.module' or
+             any(isinstance(a_, ast.Assign) and u(a_.targets[0]) == u(n.ast.targets[0].slice) and u(a_.value) == 'statement.module' for a_ in walk_local(ai.node)))]
   ok = bool(ms) and all(g5.reaches(r.id, m.id) for r in ren for m in ms)
   ctx.check(ok, rule, construct(ai), 'the selector table records the (possibly re-aliased) name every emitted selector is built from',
             'module selectors are recorded before re-aliasing', ai.loc(), instance='selector-table')
